@@ -67,6 +67,20 @@ func hashEvents(evs []abci.Event) string {
 	return hex.EncodeToString(h.Sum(nil))[:16]
 }
 
+var allStoreNames = []string{"acc", "bank", "staking", "mint", "distribution", "slashing", "gov", "params", "upgrade", "evidence", "feegrant", "authz", "crisis", "consensus", "alliance", "ibc", "transfer", "capability", "group"}
+
+// allStoreDigests: content digests of every KV store of the app (diagnostics for app-hash mismatches).
+func (r *Runner) allStoreDigests() map[string]string {
+	out := map[string]string{}
+	ctx := r.W.CtxAt(r.W.Height, r.W.Now, nil)
+	for _, name := range allStoreNames {
+		if key := r.W.App.GetKey(name); key != nil {
+			out[name] = hashKVs(dumpStore(ctx, key))
+		}
+	}
+	return out
+}
+
 func (r *Runner) storeDigests() map[string]string {
 	out := map[string]string{}
 	for _, name := range c19Stores {
